@@ -69,6 +69,8 @@ type parserState struct {
 	// querySatisfied is true if both path and value of any queries passed to
 	// consumeAny are satisfied.
 	querySatisfied bool
+	// complete is true when the top level value was consumed in full.
+	complete bool
 }
 
 // query holds information about a combination of {"key": "val"} that we're trying
@@ -123,6 +125,10 @@ func Parse(queryType string, raw []byte) (parsed, inspected, firstToken int, que
 
 	qs := queries[queryType]
 	got := p.consumeAny(raw, qs, 0)
+	if !p.complete {
+		// The top level value did not end: nothing counts as parsed.
+		got = 0
+	}
 	return got, p.ib, p.firstToken, p.querySatisfied
 }
 
@@ -131,6 +137,7 @@ func (p *parserState) reset() {
 	p.currPath = p.currPath[0:0]
 	p.firstToken = TokInvalid
 	p.querySatisfied = false
+	p.complete = false
 }
 
 func (p *parserState) consumeSpace(b []byte) (n int) {
@@ -430,10 +437,17 @@ func (p *parserState) consumeAny(b []byte, qs []query, lvl int) (n int) {
 		p.querySatisfied = true
 	}
 	if rv <= 0 {
+		if lvl > 0 {
+			// A nested value which failed must fail the enclosing container.
+			return 0
+		}
 		return n
 	}
 	n += rv
 	n += p.consumeSpace(b[n:])
+	if lvl == 0 {
+		p.complete = true
+	}
 	return n
 }
 
